@@ -129,6 +129,7 @@ type Exec struct {
 	Hook func(i int, op *Op, phase string, res *OpRes)
 	// closedFW keeps the last closed writer so that operations on a closed handle can be probed.
 	closedFW *hdf5.FileWriter
+	idleFW   *hdf5.FileWriter // see "open_idle"
 }
 
 var dtMap = map[string]hdf5.Datatype{
@@ -430,6 +431,23 @@ func (e *Exec) do(op *Op) (err error, skipped string) {
 		e.DS = map[string]*hdf5.DatasetWriter{}
 		e.GR = map[string]*hdf5.GroupWriter{}
 		return nil, ""
+	case "open_idle": // a second read-write handle on the file that is never used to modify anything
+		if e.idleFW != nil {
+			return nil, "idle handle already open"
+		}
+		ifw, oerr := hdf5.OpenForWrite(e.Path, hdf5.OpenReadWrite)
+		if oerr != nil {
+			return oerr, ""
+		}
+		e.idleFW = ifw
+		return nil, ""
+	case "close_idle":
+		if e.idleFW == nil {
+			return nil, "no idle handle"
+		}
+		cerr := e.idleFW.Close()
+		e.idleFW = nil
+		return cerr, ""
 	case "opends":
 		if !needFW() {
 			return
